@@ -197,7 +197,10 @@ func (r *WireReader) ReadWire(l int) (Wire, error) {
 }
 
 func (r *WireReader) ReadBuf(l int) (Buffer, error) {
-	if !r.nextSeg() && l > 0 {
+	if !r.nextSeg() {
+		if l == 0 {
+			return Buffer{}, nil
+		}
 		return nil, io.ErrUnexpectedEOF
 	}
 	if r.pos+l <= len(r.wire[r.seg]) {
